@@ -30,6 +30,11 @@ TARGETS = {
                  "--only", "encode,bool,null,number,string,obj,error,array,try_decode,to_bits,from_bits",
                  "--import", "Gen.NanBoxGen", "--import", "NanBox.NanBoxExt"],
     },
+    # provider/src/string_interner.rs: StringInterner::preallocate and ::get (C12)
+    "InternGen": {
+        "src": "provider/src/string_interner.rs",
+        "args": ["--types", "StringInterner", "--alias", "InternedStringId=usize", "--only", "preallocate,get"],
+    },
 }
 
 
